@@ -228,7 +228,13 @@ def translate(cfg, outdir):
                             ex = [x for x in f.get("inner", []) if x.get("kind") != "FullComment"]
                             if ex:
                                 em.field_inits[(cls, f["name"])] = ex[-1]
-        sig, text, unit = em.emit_function(node, cname, cls if node["kind"] != "FunctionDecl" else None, static)
+        em.stop_at_call = u.get("stop_at_call")
+        try:
+            sig, text, unit = em.emit_function(node, cname, cls if node["kind"] != "FunctionDecl" else None, static)
+        except Unsupported as e:
+            raise Unsupported("%s [unit %s]" % (e, u["name"]))
+        finally:
+            em.stop_at_call = None
         em.unit_names.add(cname)
         rng = node.get("range", {})
         b = rng.get("begin", {})
@@ -309,17 +315,49 @@ def translate(cfg, outdir):
         if over is not None:
             enum_defs.append("#define %s (%d)" % (cn, over))
             continue
-        if elast not in enum_cache:
+        if et not in enum_cache:  # keyed by the qualified enum type: two enums may share their last name
             vals = None
             for u in units:
                 vals = enum_values(astq.query(u["tu"], et if "::" in et else elast), elast)
                 if vals:
                     break
-            enum_cache[elast] = vals
-        vals = enum_cache[elast]
+            enum_cache[et] = vals
+        vals = enum_cache[et]
         if not vals or name not in vals:
             raise ExtractionError("cannot resolve enum constant %s::%s" % (et, name))
         enum_defs.append("#define %s (%d)" % (cn, vals[name]))
+    # "enum_export": [qualified enum names]: every constant of these enums is defined, used by a unit or not (a spec
+    # must not stop compiling because an edit of the source no longer mentions a constant)
+    for et in cfg.get("enum_export", []):
+        elast = et.split("::")[-1]
+        vals = None
+        for u in units:
+            vals = enum_values(astq.query(u["tu"], et), elast)
+            if vals:
+                break
+        if not vals:
+            raise ExtractionError("cannot resolve exported enum %s" % et)
+        for name, v in sorted(vals.items()):
+            d = "#define %s__%s (%d)" % (cfg.get("enum_rename", {}).get(et, elast), name, v)
+            if d not in enum_defs:
+                enum_defs.append(d)
+
+    # ---- implicit (compiler-generated) copy/move assignment `a = b` of a class emitted as a plain C struct: memberwise
+    # copy == C struct assignment. Only when clang says every X::operator= it sees is implicit (never for user code).
+    implicit_assign = []
+    for cn, d in sorted(em.callees.items()):
+        if cn.endswith("__operator_assign") and cn not in em.unit_names and d.endswith("::operator=") and cn in em.protos:
+            tag = cn[:-len("__operator_assign")]
+            decls = []
+            for t in sorted(set(u["tu"] for u in units)):
+                decls = [o for o in astq.query(t, tag + "::operator=")
+                         if o.get("kind") == "CXXMethodDecl" and o.get("name") == "operator="]
+                if decls:
+                    break
+            if decls and all(o.get("isImplicit") for o in decls) and len(em.protos[cn][1]) == 2:
+                implicit_assign.append((cn, tag))
+                del em.callees[cn]
+                del em.protos[cn]
 
     # ---- header
     h = [models.COMMON]
@@ -361,12 +399,18 @@ def translate(cfg, outdir):
         ct = em.const_types.get(n)
         lit = "((%s)%d)" % (ct, v) if ct and ct != "int" and not ct.startswith("struct") and "*" not in ct else "(%d)" % v
         h.append("#define VFC_%s %s /* %s, evaluated by g++ */" % (ident(n), lit, cfg["const_globals"][n]["expr"]))
+    # "exception_kinds": [class names]: kinds that are always defined (a spec keeps compiling when an edit drops a throw)
+    for k in cfg.get("exception_kinds", []):
+        em.exc_kinds.add("VF_EXC_" + k)
     for i, k in enumerate(sorted(em.exc_kinds)):
         h.append("#define %s (%d)" % (k, 2 + i))
     h.append(models.gen_funcs(tm, lib))
     for cn, et in sorted(em.lifted_new):
         h.append("static inline %s* %s(%s v) { %s* p = (%s*)malloc(sizeof(%s)); __CPROVER_assume(p != 0); *p = v; return p; }"
                  % (et, cn, et, et, et, et))
+    for cn, tag in implicit_assign:
+        h.append("static inline struct %s* %s(struct %s* a, struct %s* b) { *a = *b; return a; } /* implicit operator= */"
+                 % (tag, cn, tag, tag))
     h.append("static inline void* vf_new_array(size_t n, size_t sz) { void* p = calloc(n, sz); __CPROVER_assume(p != 0); return p; }")
     for cn, ct in sorted(em.globals.items()):
         h.append("extern %s %s;" % (ct, cn))
@@ -405,8 +449,12 @@ def translate(cfg, outdir):
         for k in range(unit.loops):
             m = "VF_LOOP_%s_%d" % (cname, k)
             c.append("#ifndef %s\n#define %s\n#endif" % (m, m))
-        c.append("/* ---- unit %s ---- */" % cname)
+        # a plain lemma harness (no dfcc) may stand in for contract replacement by hand: -DVF_OVERRIDE_<cname> drops the
+        # unit's body so that the spec supplies a stub stating the unit's separately proved specification (the stub
+        # asserts the precondition it was proved under; the substitution is listed in check.json `trusted`)
+        c.append("/* ---- unit %s ---- */\n#ifndef VF_OVERRIDE_%s" % (cname, cname))
         c.append(text)
+        c.append("#endif")
     with open(os.path.join(outdir, "gen.c"), "w") as f:
         f.write("\n".join(c) + "\n")
     info = {"units": meta,
@@ -416,7 +464,7 @@ def translate(cfg, outdir):
                        "opt": tm.opt_insts, "set": tm.set_insts,
                        "ilist": {k: list(v) for k, v in tm.ilist_insts.items()},
                        "map": {k: list(v) for k, v in tm.map_insts.items()}},
-            "exceptions": sorted(em.exc_kinds)}
+            "exceptions": sorted(em.exc_kinds), "truncated_at_stop_call": sorted(set(em.truncated))}
     with open(os.path.join(outdir, "gen.json"), "w") as f:
         json.dump(info, f, indent=1)
     return info
